@@ -194,132 +194,163 @@ func runC18(c *Ctx) {
 	mon.DiscardStdLog()
 	nprog := c.Pick(5000, 100000)
 	var mu sync.Mutex
-	var evals, consoleBytes, calls, fn9, fn2, warnsSeen, unsupported, pageCross int64
+	var evals, consoleBytes, calls, fn9, fn2, warnsSeen, unsupported, pageCross, secondRounds int64
 	distinct := mon.NewDistinct(1_000_000)
 	Parallel(nprog, func(pi int) {
 		r := mon.NewRng(mon.Hash(uint64(c.Seed), uint64(pi), 0xC18))
-		p := genC18(r, 4096)
 		mem, io := tinycpm.New()
-		for i, b := range p.Image {
-			mem.Set(0x0100+uint16(i), b)
+		cpu := &z80.CPU{Memory: mem, IO: io}
+		// a second machine configured while this one is alive: its writer and logger
+		// must never see this machine's traffic
+		_, otherIO := tinycpm.New()
+		var otherOut, otherWarn bytes.Buffer
+		// every third shard loads a second program into the same machine and runs it on
+		// the same CPU object after the first one has ended halted
+		nrounds := 1
+		if pi%3 == 0 {
+			nrounds = 2
 		}
-		var out, warn bytes.Buffer
-		io.SetStdout(&out)
-		io.SetWarnLogger(log.New(&warn, "[W]", 0))
-		cpu := &z80.CPU{States: z80.States{SPR: z80.SPR{PC: 0x0100}}, Memory: mem, IO: io, BreakPoints: map[uint16]struct{}{}}
-		for _, cl := range p.Calls {
-			if cl.Fn == 2 || cl.Fn == 9 {
-				cpu.BreakPoints[cl.RetPC] = struct{}{}
+		for round := 0; round < nrounds; round++ {
+			p := genC18(r, 4096)
+			for i, b := range p.Image {
+				mem.Set(0x0100+uint16(i), b)
 			}
-		}
-		bad := ""
-		ci := 0
-		var pan interface{}
-		var err error
-		steps := 0
-		func() {
-			defer func() { pan = recover() }()
-			for steps = 0; steps < 64; steps++ {
-				// bounded by a logical budget: a context that is cancelled by a Step counter is
-				// not available, so Run is guarded by the breakpoint protocol and the final check
-				err = runBounded(cpu, 200000)
-				if err != z80.ErrBreakPoint {
-					return
+			var out, warn bytes.Buffer
+			io.SetStdout(&out)
+			io.SetWarnLogger(log.New(&warn, "[W]", 0))
+			otherIO.SetStdout(&otherOut)
+			otherIO.SetWarnLogger(log.New(&otherWarn, "[O]", 0))
+			cpu.States = z80.States{SPR: z80.SPR{PC: 0x0100}}
+			cpu.BreakPoints = map[uint16]struct{}{}
+			if round > 0 && !p.EndsOK {
+				break
+			}
+			for _, cl := range p.Calls {
+				if cl.Fn == 2 || cl.Fn == 9 {
+					cpu.BreakPoints[cl.RetPC] = struct{}{}
 				}
-				// returned from a console call: which one?
-				for ci < len(p.Calls) && !(p.Calls[ci].RetPC == cpu.PC && (p.Calls[ci].Fn == 2 || p.Calls[ci].Fn == 9)) {
-					ci++
-				}
-				if ci >= len(p.Calls) {
-					bad = fmt.Sprintf("stopped at an unexpected return address %04X", cpu.PC)
-					return
-				}
-				cl := p.Calls[ci]
-				ci++
-				if cpu.SP != p.SP {
-					bad = fmt.Sprintf("SP after the call = %04X, before = %04X", cpu.SP, p.SP)
-					return
-				}
-				for i := range p.Image[:0x200] {
-					if i < len(p.Image) && mem.Get(0x0100+uint16(i)) != p.Image[i] {
-						bad = fmt.Sprintf("caller's code modified at %04X", 0x0100+i)
+			}
+			bad := ""
+			ci := 0
+			var pan interface{}
+			var err error
+			steps := 0
+			func() {
+				defer func() { pan = recover() }()
+				for steps = 0; steps < 64; steps++ {
+					// bounded by a logical budget: a context that is cancelled by a Step counter is
+					// not available, so Run is guarded by the breakpoint protocol and the final check
+					err = runBounded(cpu, 200000)
+					if err != z80.ErrBreakPoint {
 						return
 					}
+					// returned from a console call: which one?
+					for ci < len(p.Calls) && !(p.Calls[ci].RetPC == cpu.PC && (p.Calls[ci].Fn == 2 || p.Calls[ci].Fn == 9)) {
+						ci++
+					}
+					if ci >= len(p.Calls) {
+						bad = fmt.Sprintf("stopped at an unexpected return address %04X", cpu.PC)
+						return
+					}
+					cl := p.Calls[ci]
+					ci++
+					if cpu.SP != p.SP {
+						bad = fmt.Sprintf("SP after the call = %04X, before = %04X", cpu.SP, p.SP)
+						return
+					}
+					for i := range p.Image[:0x200] {
+						if i < len(p.Image) && mem.Get(0x0100+uint16(i)) != p.Image[i] {
+							bad = fmt.Sprintf("caller's code modified at %04X", 0x0100+i)
+							return
+						}
+					}
+					_ = cl
 				}
-				_ = cl
-			}
-		}()
-		mu.Lock()
-		evals++
-		consoleBytes += int64(out.Len())
-		calls += int64(len(p.Calls))
-		mu.Unlock()
-		nl := strings.Count(warn.String(), "\n")
-		switch {
-		case bad != "":
-		case pan != nil:
-			if _, isB := pan.(errBudget); isB {
-				bad = "the run does not end (Step budget exhausted): console call does not return or the string terminator is not found"
-			} else {
-				bad = fmt.Sprintf("panic: %v", pan)
-			}
-		case p.EndsOK && (err != nil || !cpu.HALT || cpu.PC != 0xff03):
-			bad = fmt.Sprintf("after JP 0 the run must end halted at FF03: err=%v HALT=%v PC=%04X", err, cpu.HALT, cpu.PC)
-		case !bytes.Equal(out.Bytes(), p.Expect):
-			bad = "console output differs"
-			if len(out.Bytes()) != len(p.Expect) {
-				bad = fmt.Sprintf("console output has %d bytes, want %d", out.Len(), len(p.Expect))
-			}
-		case nl != p.Warns:
-			bad = fmt.Sprintf("%d warning lines, want %d (only non-console port traffic warns)", nl, p.Warns)
-		}
-		var l9, l2, lu, lpc int64
-		for _, cl := range p.Calls {
+			}()
+			mu.Lock()
+			evals++
+			consoleBytes += int64(out.Len())
+			calls += int64(len(p.Calls))
+			mu.Unlock()
+			nl := strings.Count(warn.String(), "\n")
 			switch {
-			case cl.Fn == 9:
-				l9++
-				if len(cl.Str) > 0 && (int(cl.Addr)>>8) != ((int(cl.Addr) + len(cl.Str)) >> 8) {
-					lpc++
+			case bad != "":
+			case pan != nil:
+				if _, isB := pan.(errBudget); isB {
+					bad = "the run does not end (Step budget exhausted): console call does not return or the string terminator is not found"
+				} else {
+					bad = fmt.Sprintf("panic: %v", pan)
 				}
-			case cl.Fn == 2:
-				l2++
-			case cl.Fn >= 1000:
-				lu++
+			case p.EndsOK && (err != nil || !cpu.HALT || cpu.PC != 0xff03):
+				bad = fmt.Sprintf("after JP 0 the run must end halted at FF03: err=%v HALT=%v PC=%04X", err, cpu.HALT, cpu.PC)
+			case !bytes.Equal(out.Bytes(), p.Expect):
+				bad = "console output differs"
+				if len(out.Bytes()) != len(p.Expect) {
+					bad = fmt.Sprintf("console output has %d bytes, want %d", out.Len(), len(p.Expect))
+				}
+			case nl != p.Warns:
+				bad = fmt.Sprintf("%d warning lines, want %d (only non-console port traffic warns)", nl, p.Warns)
 			}
-		}
-		mu.Lock()
-		fn9 += l9
-		fn2 += l2
-		unsupported += lu
-		pageCross += lpc
-		warnsSeen += int64(nl)
-		mu.Unlock()
-		distinct.Add(mon.Hash(uint64(pi), uint64(len(p.Calls)), uint64(len(p.Expect))))
-		if bad != "" {
-			sig := bad
-			if len(sig) > 42 {
-				sig = sig[:42]
-			}
-			var cd []string
+			var l9, l2, lu, lpc int64
 			for _, cl := range p.Calls {
-				cd = append(cd, fmt.Sprintf("fn=%d E=%02X addr=%04X len=%d port=%02X", cl.Fn, cl.E, cl.Addr, len(cl.Str), cl.Port))
+				switch {
+				case cl.Fn == 9:
+					l9++
+					if len(cl.Str) > 0 && (int(cl.Addr)>>8) != ((int(cl.Addr)+len(cl.Str))>>8) {
+						lpc++
+					}
+				case cl.Fn == 2:
+					l2++
+				case cl.Fn >= 1000:
+					lu++
+				}
 			}
-			g, w := out.Bytes(), p.Expect
-			if len(g) > 64 {
-				g = g[:64]
+			mu.Lock()
+			fn9 += l9
+			fn2 += l2
+			unsupported += lu
+			pageCross += lpc
+			warnsSeen += int64(nl)
+			mu.Unlock()
+			distinct.Add(mon.Hash(uint64(pi), uint64(len(p.Calls)), uint64(len(p.Expect))))
+			if bad != "" {
+				sig := bad
+				if len(sig) > 42 {
+					sig = sig[:42]
+				}
+				var cd []string
+				for _, cl := range p.Calls {
+					cd = append(cd, fmt.Sprintf("fn=%d E=%02X addr=%04X len=%d port=%02X", cl.Fn, cl.E, cl.Addr, len(cl.Str), cl.Port))
+				}
+				g, w := out.Bytes(), p.Expect
+				if len(g) > 64 {
+					g = g[:64]
+				}
+				if len(w) > 64 {
+					w = w[:64]
+				}
+				c.R.Violation("C18/"+sig, map[string]interface{}{"what": bad, "program": pi, "calls": cd, "SP": h16(p.SP),
+					"console_head": HexBytes(g), "want_head": HexBytes(w), "warnings": warn.String(), "state": DumpState(&cpu.States, cpu.HALT)})
 			}
-			if len(w) > 64 {
-				w = w[:64]
+			if pi < 3 {
+				var cd []string
+				for _, cl := range p.Calls {
+					cd = append(cd, fmt.Sprintf("fn=%d E=%02X addr=%04X len=%d port=%02X", cl.Fn, cl.E, cl.Addr, len(cl.Str), cl.Port))
+				}
+				c.R.Sample(map[string]interface{}{"program": pi, "round": round, "calls": cd, "console_bytes": out.Len(), "warnings": nl})
 			}
-			c.R.Violation("C18/"+sig, map[string]interface{}{"what": bad, "program": pi, "calls": cd, "SP": h16(p.SP),
-				"console_head": HexBytes(g), "want_head": HexBytes(w), "warnings": warn.String(), "state": DumpState(&cpu.States, cpu.HALT)})
-		}
-		if pi < 3 {
-			var cd []string
-			for _, cl := range p.Calls {
-				cd = append(cd, fmt.Sprintf("fn=%d E=%02X addr=%04X len=%d port=%02X", cl.Fn, cl.E, cl.Addr, len(cl.Str), cl.Port))
+			if otherOut.Len() != 0 || otherWarn.Len() != 0 {
+				c.R.Violation("C18/another-machine-saw-the-traffic", map[string]interface{}{
+					"what": "console bytes or warnings of this machine reached the writer/logger configured on another tinycpm machine", "program": pi})
 			}
-			c.R.Sample(map[string]interface{}{"program": pi, "calls": cd, "console_bytes": out.Len(), "warnings": nl})
+			if bad != "" || !p.EndsOK {
+				break // the machine is not in its end state: no second round
+			}
+			if round == 1 {
+				mu.Lock()
+				secondRounds++
+				mu.Unlock()
+			}
 		}
 	})
 
@@ -386,6 +417,7 @@ func runC18(c *Ctx) {
 	c.R.Set("evaluations", evals+binRuns)
 	c.R.Set("programs", evals)
 	c.R.Set("cmd_zexdoc_binary_runs", binRuns)
+	c.R.Set("second_programs_on_the_same_cpu_and_machine", secondRounds)
 	c.R.Set("distinct_nontrivial", distinct.N())
 	c.R.Set("console_bytes", consoleBytes)
 	c.R.Set("bdos_calls", calls)
@@ -395,7 +427,7 @@ func runC18(c *Ctx) {
 	c.R.Set("warning_lines_seen", warnsSeen)
 	c.R.Set("unsupported_function_calls_recorded", unsupported)
 	c.R.Set("exhaustive", false)
-	c.R.Set("rule", "generated programs of 1..12 mixed calls on tinycpm (as imported from /repo): function 2 with every E value incl. '$', function 9 with strings of length 0..4096 over every byte value except '$' (long strings contain all 255 values; 1/3 high bytes) at arbitrary addresses incl. straddling 256-byte pages, OUT (n!=0),A and IN A,(n) (must warn, no console byte), an unsupported function number only as the last call (recorded, no verdict), then JP 0; BreakPoints on every call's return address: SP restored, the caller's code intact; the writer must receive exactly the concatenation in program order, warning lines only for non-console port traffic, the run must end halted at FF03. A sample of programs is also written as zexdoc.cim / zexall.cim and run through the BUILT cmd/zexdoc binary (real stdout, stderr, exit status). Distinct = distinct (program, number of calls, console length); every program makes at least one call")
+	c.R.Set("rule", "generated programs of 1..12 mixed calls on tinycpm (as imported from /repo): function 2 with every E value incl. '$', function 9 with strings of length 0..4096 over every byte value except '$' (long strings contain all 255 values; 1/3 high bytes) at arbitrary addresses incl. straddling 256-byte pages, OUT (n!=0),A and IN A,(n) (must warn, no console byte), an unsupported function number only as the last call (recorded, no verdict), then JP 0; BreakPoints on every call's return address: SP restored, the caller's code intact; the writer must receive exactly the concatenation in program order, warning lines only for non-console port traffic, the run must end halted at FF03; every third machine then gets a second program loaded and run on the same CPU object; a second tinycpm machine configured alongside must see none of the traffic. A sample of programs is also written as zexdoc.cim / zexall.cim and run through the BUILT cmd/zexdoc binary (real stdout, stderr, exit status). Distinct = distinct (program, number of calls, console length); every program makes at least one call")
 	c.R.Assume("unsupported BDOS function numbers have no specified outcome")
 }
 
